@@ -3,6 +3,7 @@
                                              ::repl_merge_valueset, ::trim
      server/lib/src/value.rs                 Ord for SessionState, derive(Ord) KeyStatus
      server/lib/src/valueset/key_internal.rs ValueSetKeyInternal::repl_merge_valueset, ::trim
+                                             (as repaired by /repo ea75008)
      server/lib/src/valueset/auditlogstring.rs ::repl_merge_valueset, remove_oldest
      server/lib/src/entry.rs                 merge_state: newer/older role by change id (take_left)
      server/lib/src/repl/cid.rs              derive(Ord) on Cid { ts, s_uuid }
@@ -119,20 +120,22 @@ Definition k_status (v : kval) : kstatus := fst (fst v).
 Definition k_cid (v : kval) : cid := snd (fst v).
 Definition k_pay (v : kval) : N := snd v.
 Definition kmap := list (N * kval).
-(* `if v_other.status > v_self.status` — the status cid is NOT consulted *)
-Definition kval_gt (a b : kval) : bool := krank (k_status b) <? krank (k_status a).
+(* `if v_other.status > v_self.status
+       || (v_other.status == v_self.status && v_other.status_cid < v_self.status_cid)`
+   (since /repo ea75008: on equal status the EARLIEST status cid wins) *)
+Definition kval_gt (a b : kval) : bool :=
+  (krank (k_status b) <? krank (k_status a))
+  || ((krank (k_status a) =? krank (k_status b)) && cid_ltb (k_cid a) (k_cid b)).
 Definition kval_dead (trim : cid) (v : kval) : bool :=
   match k_status v with KRevoked => cid_ltb (k_cid v) trim | _ => false end.
 Definition key_merge (trim : cid) (newer older : kmap) : kmap :=
   retain (fun v => negb (kval_dead trim v)) (merge_raw N.compare kval_gt newer older).
 
-(* the PROPOSED FIX (not the code): on equal status the earliest status cid wins, as for
-   SessionState::RevokedAt; used only by the theorem that the fix restores the property *)
-Definition kval_gt_fixed (a b : kval) : bool :=
-  (krank (k_status b) <? krank (k_status a))
-  || ((krank (k_status a) =? krank (k_status b)) && cid_ltb (k_cid a) (k_cid b)).
-Definition key_merge_fixed (trim : cid) (newer older : kmap) : kmap :=
-  retain (fun v => negb (kval_dead trim v)) (merge_raw N.compare kval_gt_fixed newer older).
+(* PRE-FIX behaviour (before /repo ea75008), kept only to document the defect:
+   `if v_other.status > v_self.status` — the status cid was NOT consulted *)
+Definition kval_gt_prefix (a b : kval) : bool := krank (k_status b) <? krank (k_status a).
+Definition key_merge_prefix (trim : cid) (newer older : kmap) : kmap :=
+  retain (fun v => negb (kval_dead trim v)) (merge_raw N.compare kval_gt_prefix newer older).
 
 (* ------------------------------------------------------------------ audit log *)
 Definition amap := list (cid * N).         (* BTreeMap<Cid, String>; the string as an id *)
@@ -296,7 +299,8 @@ Definition key_consistent (es : list (N * kval)) : bool :=
   pairwise N.eqb (fun a b => implb (kstatus_eqb (k_status a) (k_status b)) (k_pay a =? k_pay b)) es.
 Definition key_window (trim : cid) (es : list (N * kval)) : bool :=
   pairwise N.eqb (fun a b => implb (kval_dead trim a) (kval_dead trim b)) es.
-(* KNOWN CLASS: two replicas hold one key in the same status with different status cids *)
+(* two replicas hold one key in the same status with different status cids (the class on
+   which the pre-fix merge was order dependent; no longer special) *)
 Definition key_tie (es : list (N * kval)) : bool :=
   negb (pairwise N.eqb (fun a b => implb (kstatus_eqb (k_status a) (k_status b)) (cid_eqb (k_cid a) (k_cid b))) es).
 Definition key_rev_chk (trim : cid) (kv : N * kval) (m : kmap) : bool :=
@@ -304,7 +308,7 @@ Definition key_rev_chk (trim : cid) (kv : N * kval) (m : kmap) : bool :=
   | KRevoked =>
       if cid_ltb (k_cid (snd kv)) trim then true else
       match get N.compare (fst kv) m with
-      | Some v' => match k_status v' with KRevoked => true | _ => false end
+      | Some v' => match k_status v' with KRevoked => cid_leb (k_cid v') (k_cid (snd kv)) | _ => false end
       | None => false
       end
   | _ => true
@@ -342,8 +346,4 @@ Definition pcheck (c : case) : bool :=
          && idem amap_eqb (fun m => m) ins outs && audit_bounded ins outs)
   end.
 
-Definition known (c : case) : bool :=
-  match c with
-  | CKey trim ins outs => key_tie (entries ins)
-  | _ => false
-  end.
+Definition known (_ : case) : bool := false.
